@@ -257,7 +257,7 @@ Section FlatStep.
     assert (Q0 : kq M' k k') by (unfold kq; rewrite Q, Q'; reflexivity).
     destruct (kernel_op_twin WATCHDOG_ALL M' (kmask_sub F _) (kmask_nodir F _) k k' (w_fs w) o T Q0) as [T1 Q1].
     fold kU kF in T1, Q1. unfold kq in Q1.
-    rewrite (kcollapse_nodup _ (NoDup_filter _ _ (kernel_op_nodup k (w_fs w) o Q))) in Q1. fold kU in Q1.
+    rewrite (kcollapse_keys _ (NoDup_key_filter kkey _ _ (kernel_op_nodup k (w_fs w) o Q))) in Q1. fold kU in Q1.
     destruct (read_batch C (w_fs w') (r, kdrained kU, []) (k_queue kU)) as [[[r' kk] raws]|] eqn:Hrd; [|discriminate].
     inversion Hrun; subst w1 k1 r1 evs; clear Hrun.
     assert (QS : qshaped kU).
